@@ -275,7 +275,7 @@ HOpen(e, refs) ==
   /\ UNCHANGED <<cs, oval, entered, stash, child, copied, acts, ibind, nd, done, parked>>
 
 HEnter(g, api) ==
-  /\ Idle /\ G[g].st = "open" /\ Len(cs) < 2
+  /\ Idle /\ G[g].st = "open" /\ Len(cs) < 2 /\ parked = NoPark
   /\ G' = [G EXCEPT ![g].st = "active"]
   /\ cs' = Append(cs, g)
   /\ entered' = entered \cup {g}
@@ -317,7 +317,7 @@ HDrop(g) ==
 \* is ONE script; the host binds the global, runs the script and resets the global to void (so D3 does
 \* not apply to this API).  The script uses the handle and stashes it in place p.
 HRwr(e, o, p) ==
-  /\ Idle /\ ng < MaxGuards /\ Len(cs) < 2 /\ EngFree(e) /\ acts < MaxActs
+  /\ Idle /\ ng < MaxGuards /\ Len(cs) < 2 /\ EngFree(e) /\ acts < MaxActs /\ parked = NoPark
   /\ (ng = 0 => (e = 1 /\ o = "A"))
   /\ (e = 2 => \E g \in GuardIds : G[g].st # "none" /\ G[g].eng = 1)
   /\ Lendable(R(o, "mut"))
@@ -359,7 +359,11 @@ AllDirect == <<[g |-> 1, k |-> 1], [g |-> 1, k |-> 2], [g |-> 2, k |-> 1], [g |-
                [g |-> 3, k |-> 1], [g |-> 3, k |-> 2]>>
 DirectSeq(e) == SelectSeq(AllDirect, LAMBDA h : h.g \in entered /\ G[h.g].eng = e /\ h.k <= Len(G[h.g].refs))
 HasChild(e) == child # NoChild /\ child.eng = e
-Budget == Idle /\ acts < MaxActs
+\* While a use is parked on a script thread the host only ends lending calls, drops guards, opens guards and
+\* releases it: binding a global or evaluating a `define` stops the world in Steel, which waits for the
+\* parked thread (the stop-the-world protocol is the subject of C15/C16, not of this module).
+Calm == parked = NoPark
+Budget == Idle /\ acts < MaxActs /\ Calm
 AnyActive == \E g \in GuardIds : G[g].st = "active"
 
 RECURSIVE Flat(_)
@@ -482,7 +486,8 @@ SDropChild(e) ==
 SPark(e, h) ==
   /\ Threads /\ Budget /\ EngFree(e) /\ parked = NoPark
   /\ UseOK(h, "mut")
-  /\ hist' = hist \o <<[src |-> "(define th@@ (spawn-native-thread (lambda () (cell-park " \o HExpr(h) \o "))))", eng |-> e,
+  /\ hist' = hist \o <<SStepRec(e, "(define tb@@ (box #f))", TRUE, << >>, << >>),
+                        [src |-> "(set-box! tb@@ (spawn-native-thread (lambda () (cell-park " \o HExpr(h) \o "))))", eng |-> e,
                          class |-> "ok", hold |-> TRUE],
                         [h |-> "await-parked", src |-> "#host await parked", class |-> "ok", val |-> "parked",
                          acc |-> <<ObjOf(h) \o ".park_begin">>]>>
@@ -494,7 +499,7 @@ SPark(e, h) ==
 SRelease ==
   /\ Idle /\ parked # NoPark /\ EngFree(parked.eng)
   /\ hist' = hist \o <<[h |-> "release", src |-> "#host release", hold |-> TRUE],
-                        [src |-> "(emit (thread-join! th@@))", eng |-> parked.eng, class |-> "any",
+                        [src |-> "(emit (thread-join! (unbox tb@@)))", eng |-> parked.eng, class |-> "any",
                          acc |-> IF Valid(parked.h) THEN <<ObjOf(parked.h) \o ".park_end">> ELSE << >>]>>
   /\ parked' = NoPark
   /\ pend' = -1
